@@ -53,5 +53,7 @@ func checkC12(c *Ctx, r *Report) {
 	checkDMTables(c, r)
 	// the Code 128 writer's value computation indexes its contents by position: folded over contents and forced code sets
 	checkCode128RoundTrip(c, r)
+	// "never smaller than the symbol": the margin the renderers add is not negative
+	checkMarginNonNegative(c, r)
 	r.Note("not decided: termination of the Data Matrix mode loop (needs a ranking argument over data-dependent rewinds); the size clause (matrix never smaller than the symbol / the request) is decided by the rendering terms under C14")
 }
